@@ -425,11 +425,11 @@ def replay(out, pending):
 
 
 def run(out):
-    out.functions = ["on_request_handler (async body)", "per-method task closures", "ServerContext::task (async body + spawned future)",
+    out.functions = ["run_ls (async body: initialize handshake)", "on_request_handler (async body)", "per-method task closures", "ServerContext::task (async body + spawned future)",
                      "ServerMessageProcessor::handle_message (async body)"]
     out.bounds = {"paths": "all paths from state 0 of each async state machine with awaits completing; every method arm, extract Ok/Err, cancelled/not, handler Some/None"}
     out.outside = ["a handler that panics inside the spawned task (no catch_unwind; unwinding edges are not followed)",
-                   "the initialize handshake in lsp_server.rs (blocking I/O loop), including initialize params that do not deserialize",
+                   "what lsp_server::Connection::initialize_start does with messages that arrive before a valid initialize (library code)",
                    "tokio scheduling, ordering between tasks, the transport"]
     out.assumptions = ["awaits complete (Future::poll returns Ready)", "ServerContext::send and crossbeam Sender::send deliver the message",
                        "Request::extract returns Ok((id of the request, params)) or Err (lsp_server contract)",
